@@ -102,6 +102,9 @@ bool is_valid_b64(const u8_t* base64_in, int len) {
         else if (tail != 0)
             return false;
     }
+    // a 16-byte key is 22 characters followed by exactly two '='
+    if (tail != 2)
+        return false;
     return true;
 
 }
